@@ -80,6 +80,9 @@ pub fn pool_shard(
     let seed = cfg.seed.wrapping_mul(1_000_003).wrapping_add(shard as u64);
     let mut gen = PoolGen::new(seed);
     let mut wcfg = WorldCfg::default();
+    // vary the chain / contract configuration across shards
+    wcfg.tf_fees = [vec![cosmwasm_std::coin(1_000, "uom")], vec![], vec![cosmwasm_std::coin(500, "uusdc")], vec![cosmwasm_std::coin(1_000, "uom"), cosmwasm_std::coin(300, "uusdt")]][shard % 4].clone();
+    wcfg.pool_creation_fee = [cosmwasm_std::coin(1_000, "uom"), cosmwasm_std::coin(2_500, "uusdc"), cosmwasm_std::coin(0, "uom")][shard % 3].clone();
     tune(&mut gen, &mut wcfg);
     let mut w = World::new(wcfg);
     set_ctx(format!("workload=W-pool seed={} shard={} (generator seed {})", cfg.seed, shard, seed));
